@@ -130,4 +130,8 @@ Fixpoint incr_in (lo hi : Z) (l : list Z) : Prop :=
   | x :: t => lo <= x <= hi /\ incr_in (x + 1) hi t
   end.
 
+(* the list `base` repeated for repetitions 0 .. reps-1, repetition i shifted by i * L *)
+Definition translates (base : list Z) (L reps : Z) : list (list Z) :=
+  map (fun i => map (fun x => x + i * L) base) (zrange 0 reps).
+
 Definition is_member (q : Z) (l : list Z) : bool := existsb (fun y => Z.eqb y q) l.
